@@ -701,6 +701,10 @@ func genSeqOps(rng *simrt.Rand, n uint64, count int, idBase uint64, odd bool) []
 			op := SeqOp{Kind: "write", Addr: a, ID: idBase + uint64(i) + 1, Shared: rng.Chance(1, 4), Scribble: rng.Chance(1, 3)}
 			if rng.Chance(1, 8) {
 				op.ID = 0 // an all-zero block
+			} else if rng.Chance(1, 5) {
+				// content with zero stretches: only the last / first word set,
+				// only one half set
+				op.ID = model.Shaped(op.ID, 1+rng.Intn(4))
 			} else if rng.Chance(1, 8) {
 				// the same content as an earlier write (possibly to this address)
 				for j := len(ops) - 1; j >= 0; j-- {
@@ -744,8 +748,24 @@ func (c09) Expand(json.RawMessage) []json.RawMessage { return nil }
 func (c09) Gen(rng *simrt.Rand, tier string, run int) interface{} {
 	p := DPlan{Batch: "seq", PriorLen: -1}
 	n := rng.PickU64(0, 1, 2, 3, 8, 100)
+	if rng.Chance(1, 16) {
+		// sizes at which chunked or slab-allocated storage has an empty or an
+		// exactly full last chunk
+		n = rng.PickU64(64, 128, 1024, 4096, 4097, 8192)
+	}
 	p.Real = run%10 == 9
 	p.Rounds = []Round{{N: n, Ops: genSeqOps(rng, n, 1+rng.Intn(40), 0x100, true)}}
+	if rng.Chance(1, 4) {
+		// the disk is closed and another one made (in memory: a new, zeroed
+		// disk; on a file: the same image again, possibly with another size)
+		for r := 1; r <= 1+rng.Intn(2); r++ {
+			nr := n
+			if rng.Chance(1, 3) {
+				nr = rng.PickU64(0, 1, 2, 3, 8, 100)
+			}
+			p.Rounds = append(p.Rounds, Round{N: nr, Ops: genSeqOps(rng, nr, 1+rng.Intn(12), uint64(0x100+0x100*r), true)})
+		}
+	}
 	return p
 }
 
